@@ -657,25 +657,7 @@ fn main() {
     {
         use mc::ifaces::typ::TYPES;
         use mc::ifaces::Typ;
-        let mut lits: Vec<String> = vec![];
-        for n in 1..=40usize {
-            for d in ["9".repeat(n), format!("1{}", "0".repeat(n - 1)), "4294967296".chars().cycle().take(n).collect::<String>()] {
-                for f in [
-                    format!("1E{d}"), format!("1E-{d}"), format!("1e+{d}"), format!("{d}"), format!("-{d}"), format!("{d}.{d}"), format!(".{d}E{d}"),
-                    format!("0.{}1", "0".repeat(n)), format!("{d}E-{d}"),
-                ] {
-                    lits.push(f);
-                }
-            }
-            lits.push(format!("#H{}", "F".repeat(n)));
-            lits.push(format!("#Q{}", "7".repeat(n)));
-            lits.push(format!("#B{}", "1".repeat(n)));
-            lits.push(format!("#H{}", "0".repeat(n)));
-            if n <= 9 {
-                lits.push(format!("#{n}{}", "9".repeat(n)));
-                lits.push(format!("#{n}{}", "0".repeat(n)));
-            }
-        }
+        let lits = mc::util::long_numeric_literals();
         for (_, mn) in TYPES {
             for l in &lits {
                 let x = format!("{mn} {l}\n").into_bytes();
